@@ -90,7 +90,7 @@ func encOpt(enc string) gtree.Option {
 	return gtree.WithEncodeTOML()
 }
 
-var c04Hostile = []string{`"`, `'`, `a: b`, `#c`, `\`, "\x01", "\x7f", "a\tb", `é`, `日本`, `- x`, `[x]`, `{y}`, `~`, `null`, `true`, `1e3`, `yes`, ` lead`, `trail `, `a"b'c`, `\n`, `<&>`, `%s`, `=`, `a = "b"`}
+var c04Hostile = []string{`"`, `'`, `a: b`, `#c`, `\`, "\x01", "\x7f", "a\tb", `é`, `日本`, `- x`, `[x]`, `{y}`, `~`, `null`, `true`, `1e3`, `yes`, ` lead`, `trail `, `a"b'c`, `\n`, `<&>`, `%s`, `=`, `a = "b"`, `C#`, `x ##`}
 
 type c04Replay struct {
 	Kind  string   `json:"kind"`
@@ -124,6 +124,8 @@ func c04Judge(c *rep.Ctx, d []int, names []string, enc, route string) {
 		opts = append(opts, extraOpts("massive-nil", "")...)
 	case "star-tab":
 		sp = enum.Spelling{Unit: "\t", Bullets: []byte("*-")}
+	case "heading":
+		sp = enum.Spelling{Unit: "  ", Bullets: []byte("-"), Heading: true}
 	case "opts":
 		opts = append(extraOpts("fmt,exts,nil,strict", ""), append(opts, extraOpts("target,nil", "/nonexistent/never/used")...)...)
 	}
@@ -174,7 +176,7 @@ func sortForest(f model.Forest) {
 	sort.SliceStable(f, func(i, j int) bool { return model.Key(model.Forest{f[i]}) < model.Key(model.Forest{f[j]}) })
 }
 
-var c04Variants = []string{"noiter", "alias", "massive", "plus", "plus-massive", "star-tab", "opts"}
+var c04Variants = []string{"noiter", "alias", "massive", "plus", "plus-massive", "star-tab", "opts", "heading"}
 
 func init() {
 	props["C04"] = func(c *rep.Ctx) {
@@ -207,10 +209,22 @@ func init() {
 						if (v == "plus" || v == "plus-massive" || v == "star-tab") && (rootOnlyNames || len(names[0]) != 1 || strings.TrimSpace(strings.Join(names, "")) == "") {
 							continue // other spellings: for the plain alphabets only
 						}
+						if v == "heading" {
+							// roots written as "# name": for names a heading can carry (it trims blanks; a leading # is markup)
+							ok := !rootOnlyNames
+							for i, nm := range names {
+								if d[i] == 1 && (nm != strings.TrimSpace(nm) || nm == "" || strings.HasPrefix(nm, "#") || strings.ContainsAny(nm, "\x01\x7f\t")) {
+									ok = false
+								}
+							}
+							if !ok {
+								continue
+							}
+						}
 						if !rootOnlyNames {
 							c04Judge(c, d, names, enc, "md+"+v)
 						}
-						if roots == 1 && !strings.HasPrefix(v, "plus") && v != "star-tab" {
+						if roots == 1 && !strings.HasPrefix(v, "plus") && v != "star-tab" && v != "heading" {
 							c04Judge(c, d, names, enc, "root+"+v)
 						}
 					}
@@ -253,6 +267,25 @@ func init() {
 			do(dc, nc, false)
 			do(dw, nw, false)
 			do(dr, nr, false)
+		}
+		// documents larger than the usual I/O buffers (2, 4, 12 and 64 KiB), From-Markdown: names must come out as written
+		for _, total := range []int{150, 300, 900, 4500} {
+			if !c.Take() || c.Expired() {
+				continue
+			}
+			var d []int
+			var nm []string
+			for i := 0; i < total/3; i++ {
+				d = append(d, 1, 2, 3)
+				nm = append(nm, fmt.Sprintf("root%05d", i), fmt.Sprintf("kid%05d", i), fmt.Sprintf("leaf%05d", i))
+			}
+			c.StateN(1)
+			c.Inc("size_family_cases")
+			for _, enc := range []string{"json", "yaml"} {
+				c04Judge(c, d, nm, enc, "md")
+				c04Judge(c, d, nm, enc, "md+noiter")
+				c04Judge(c, d, nm, enc, "md+massive")
+			}
 		}
 		// hostile names; From-Root additionally gets names Markdown cannot spell (empty, multi-line)
 		rootOnly := []string{"", "a\nb"}
